@@ -129,7 +129,7 @@ func dialGetInfo(addr string, bound time.Duration) (*varlink.Connection, error) 
 	ctx, cancel := context.WithTimeout(context.Background(), bound)
 	defer cancel()
 	var last error
-	for i := 0; i < 400; i++ {
+	for dl := time.Now().Add(bound); time.Now().Before(dl); {
 		c, err := varlink.NewConnection(ctx, addr)
 		if err == nil {
 			if gerr := c.GetInfo(ctx, nil, nil, nil, nil, nil); gerr != nil {
